@@ -54,9 +54,12 @@ def gen_ontology(rng):
             rels.append(OL.REL(typ, a['name'], b['name'], confidence=rng.choice([1, 2, 5, 6, 9, 10]),
                                **{'source-concept': rng.choice(a['concepts'])['name'], 'target-concept': rng.choice(b['concepts'])['name']}))
         for typ in rng.sample(['name', 'description', 'container'], rng.randint(0, 3)):
-            if len(single) >= 2:
-                a, b = rng.sample(single, 2)
-                rels.append(OL.REL(typ, a['name'], b['name']))
+            # one or two relations of the type (over different property pairs)
+            for _ in range(rng.choice([1, 1, 2])):
+                if len(single) >= 2:
+                    a, b = rng.sample(single, 2)
+                    if not any(r['type'] == typ and r['source'] == a['name'] and r['target'] == b['name'] for r in rels):
+                        rels.append(OL.REL(typ, a['name'], b['name']))
         kw = {}
         if timed:
             kw['timespan-start'] = 't0'
